@@ -242,4 +242,17 @@ theorem atom_token_hcount {m₁ m₂ : Mol} {opts : Opts} {sc₁ sc₂ : SCtx} {
   obtain ⟨y, hy, e2⟩ := parts m₂ sc₂ h₂
   exact ⟨x, y, hx, hy, e1.symm.trans e2⟩
 
+/-- decidable form of `NoAromaticHalogen` -/
+def noAromaticHalogenB (m : Mol) (opts : Opts) : Bool :=
+  m.atoms.all fun p => !(opts.aromatic && hybridization m p.1 == 4 && [9, 17, 35, 53].contains p.2.z)
+
+theorem noAromaticHalogen_of_B {m : Mol} {opts : Opts} (h : noAromaticHalogenB m opts = true) : NoAromaticHalogen m opts := by
+  intro n atom hat har hh hz
+  have hmem : (n, atom) ∈ m.atoms := lookup_mem _ _ _ hat
+  simp only [noAromaticHalogenB, List.all_eq_true] at h
+  have := h _ hmem
+  simp only [har, hh, beq_self_eq_true, Bool.and_self, Bool.true_and, Bool.not_eq_eq_eq_not, Bool.not_true,
+    List.contains_eq_mem, decide_eq_false_iff_not] at this
+  exact this hz
+
 end ChythonModel.Proofs.C02
